@@ -16,7 +16,8 @@ Environment, handed in as data: whether the configuration file can be read and t
 the query file exists, what `serde_json` makes of the whole file (`doc`) and of each of its lines (`none`: the
 line is not JSON, or reading it failed — invalid UTF-8).  A query "file" that can be opened but never read (a
 directory: every `read` fails with `EISDIR`, and `BufRead::lines` yields that error for ever) is the explicit
-file kind `unreadable`.
+file kind `unreadable`; `command_line_runner` refuses it like a missing file (fix fffeda5), so the `unreadable`
+arms of `runJsonO` / `runNewlineJsonO` describe those two functions only.
 
 What a total function cannot do is an explicit outcome: `itertools::chunks(0)` panics (`assert!(size != 0)`),
 the cast `c as usize` wraps (`asUsize`), an endless line iterator `diverges`.
@@ -46,7 +47,7 @@ inductive CliErr (ε : Type) where
   | configFile
   /-- `CompassApp::try_from` failed -/
   | appBuild
-  /-- `File::open(query_file)` failed (`BuildFailure`) -/
+  /-- `File::open(query_file)` failed, or the path is a directory (`BuildFailure("Could not find query file …")`) -/
   | queryFileMissing
   /-- dispatch arm `(None, true)`: `InternalError("invalid argument combination should have been caught
   during CLI validation")` -/
@@ -196,7 +197,10 @@ def afterValidateO {ε ρ : Type} (run : List Json → Outcome (Except ε ρ)) (
   | .good =>
     match file with
     | .missing => .ok { log := [], result := .error .queryFileMissing }
-    | f => dispatchO run a f
+    -- `query_file.metadata().is_dir()` right after `File::open` (fix fffeda5: the path used to reach the
+    -- dispatch, and `run_newline_json` never returned on it)
+    | .unreadable => .ok { log := [], result := .error .queryFileMissing }
+    | .content doc lines => dispatchO run a (.content doc lines)
 
 /-- `command_line_runner(args, builder, run_config)`: `run` is `CompassApp::run(·, run_config)` of the
 application the configuration file builds -/
